@@ -25,6 +25,7 @@ import (
 	"fmt"
 	"reflect"
 	"runtime"
+	"runtime/debug"
 	"strconv"
 	"strings"
 	"sync"
@@ -41,6 +42,7 @@ import (
 	"go.minekube.com/gate/pkg/edition/java/proto/state"
 	"go.minekube.com/gate/pkg/edition/java/proto/version"
 	"go.minekube.com/gate/pkg/edition/java/proxy"
+	"go.minekube.com/gate/pkg/edition/java/proxy/bungeecord"
 	"go.minekube.com/gate/pkg/edition/java/proxy/verifh/lib"
 	gproto "go.minekube.com/gate/pkg/gate/proto"
 	"go.minekube.com/gate/pkg/util/netutil"
@@ -55,6 +57,16 @@ var sharedAuth = sync.OnceValue(func() auth.Authenticator {
 	return a
 })
 
+// The exported listing entry points over players and servers (everything in the proxy package
+// that iterates or sizes playerIDs / playerNames / a server's player list / servers and can be
+// reached without a started proxy): Proxy.Players, PlayerCount, Player, PlayerByName, Servers,
+// Server, DisconnectAll, RegisteredServer.Players().Range/.Len and the exported typed-slice
+// helper PlayersToSlice in the three instantiations Gate itself uses (Player for "/send
+// current", MessageSink and bungeecord.Player for the BungeeCord PlayerList / Message
+// responders), plus the composition the built-in /glist and /server commands make of them
+// (Servers, then Len and Range of every server's list, then PlayerCount). The built-in
+// commands themselves and the BungeeCord responder adapter are unexported and only wired up by
+// Proxy.Start / a live backend session; they consist of exactly these calls.
 const (
 	lPlayers = iota
 	lPlayerCount
@@ -62,10 +74,28 @@ const (
 	lServerLen
 	lServers
 	lDisconnectAll
+	lToSlicePlayer
+	lToSliceSink
+	lToSliceBungee
+	lPlayerLookup
+	lServerLookup
+	lGlist
 	nListerKinds
 )
 
-var listerName = []string{"Players", "PlayerCount", "server.Players().Range", "server.Players().Len", "Servers", "DisconnectAll"}
+var listerName = []string{"Players", "PlayerCount", "server.Players().Range", "server.Players().Len", "Servers", "DisconnectAll",
+	"PlayersToSlice[Player]", "PlayersToSlice[MessageSink]", "PlayersToSlice[bungeecord.Player]", "Player+PlayerByName", "Server", "glist-composition"}
+
+// panicClass names the kind of a recovered panic (stable across seeds: no indices, no addresses).
+func panicClass(p any) string {
+	s := fmt.Sprint(p)
+	for _, k := range []string{"index out of range", "slice bounds out of range", "nil pointer dereference", "assignment to entry in nil map", "interface conversion", "makeslice", "negative"} {
+		if strings.Contains(s, k) {
+			return strings.ReplaceAll(k, " ", "-")
+		}
+	}
+	return "other"
+}
 
 type runCfg struct {
 	Run        int
@@ -75,6 +105,7 @@ type runCfg struct {
 	Epochs     int
 	Listers    []int // kind per lister goroutine
 	Hold       int   // yields while the epoch's set is stable
+	Flaps      int   // per epoch each registrar's players leave and re-join the server's player list this often (a switch away and back)
 	Procs      int
 }
 
@@ -130,22 +161,27 @@ func tagOf(name string) int {
 func TestC12(t *testing.T) {
 	r := lib.Start(t, "C12")
 	defer r.Finish()
-	r.Rule("each case is one run on a fresh Proxy: 8-16 goroutines = 2-4 player registrars (1-4 uniquely named players each per epoch, registered through registerConnection and added to a server's player list, later removed by unregisterConnection / connection close) + 1 server registrar (Register/Unregister of 1-3 tagged servers per epoch) + 4-11 free-running listers drawn from {Players, PlayerCount, server.Players().Range, .Len, Servers, DisconnectAll}; 3-6 epochs separated by barriers with a full clear in between; distinct = distinct run configuration")
+	r.Rule("each case is one run on a fresh Proxy: 10-18 goroutines = 2-4 player registrars (1-4 uniquely named players each per epoch, registered through registerConnection and added to a server's player list, in three quarters of the runs leaving and re-joining that list 1-24 times within the epoch, later removed by unregisterConnection / connection close) + 1 server registrar (Register/Unregister of 1-3 tagged servers per epoch) + 5-15 free-running listers drawn from ALL exported listing entry points {Players, PlayerCount, Player/PlayerByName, Servers, Server, DisconnectAll, server.Players().Range, .Len, PlayersToSlice[Player], PlayersToSlice[MessageSink], PlayersToSlice[bungeecord.Player], the Servers+Len+Range+PlayerCount composition of /glist and /server}, at least one Players, one Range and one PlayersToSlice lister per run; 3-6 epochs separated by barriers with a full clear in between; distinct = distinct run configuration")
 	r.Assume("the Go race detector reports the unsynchronised accesses that happen in a run (reports are parsed by the driver against race_allow); absence of a report is not a proof for schedules that did not occur")
+	r.Assume("a panic inside a listing call is recovered in the lister's goroutine and reported with the listing function in the signature; fatal runtime errors (concurrent map access) end the process and are classified by the driver")
 	r.Assume("epoch discipline: every tagged item of epoch e is removed before any item of epoch e+1 is added (two barriers), so any one-moment snapshot carries a single tag")
 
 	runs := r.N(100, 2000)
 	rng := r.Rng("runs")
 	var calls [nListerKinds]atomic.Int64
-	var nonEmpty, mixed, maxLen, registered, srvRegistered, daCalls, daPlayers atomic.Int64
+	var nonEmpty, mixed, maxLen, registered, srvRegistered, daCalls, daPlayers, rejoins, listerPanics atomic.Int64
 
 	r.Checkpoint()
 	for run := 0; run < runs; run++ {
 		cfg := runCfg{Run: run, Registrars: 2 + rng.Intn(3), PerEpoch: 1 + rng.Intn(4), Servers: 1 + rng.Intn(3), Epochs: 3 + rng.Intn(4), Hold: rng.Intn(40)}
-		total := 8 + rng.Intn(9)
+		if rng.Intn(4) != 0 {
+			cfg.Flaps = 1 + rng.Intn(24)
+		}
+		total := 10 + rng.Intn(9)
 		nl := total - cfg.Registrars - 1
-		// every run has at least one Players lister and one Range lister; the rest is drawn
-		cfg.Listers = []int{lPlayers, lServerRange}
+		// every run has at least one Players lister, one Range lister and one lister of the typed
+		// slice helper (instantiation rotating over the runs); the rest is drawn
+		cfg.Listers = []int{lPlayers, lServerRange, lToSlicePlayer + run%3}
 		for len(cfg.Listers) < nl {
 			k := rng.Intn(nListerKinds)
 			// DisconnectAll only in every third run (it is rare in real life, and on a Gate
@@ -180,13 +216,16 @@ func TestC12(t *testing.T) {
 		var churn, list sync.WaitGroup
 		type viol struct {
 			sig, what string
-			w        map[string]any
+			w         map[string]any
 		}
 		var vmu sync.Mutex
 		var viols []viol
+		perSig := map[string]int{}
 		report := func(sig, what string, w map[string]any) {
 			vmu.Lock()
-			viols = append(viols, viol{sig, what, w})
+			if perSig[sig]++; perSig[sig] <= 3 {
+				viols = append(viols, viol{sig, what, w})
+			}
 			vmu.Unlock()
 		}
 
@@ -221,6 +260,16 @@ func TestC12(t *testing.T) {
 					bar.wait() // everything of epoch e is in
 					for y := 0; y < cfg.Hold; y++ {
 						runtime.Gosched()
+					}
+					// joins and leaves of the server's list within the epoch (same tag: the
+					// one-tag clause is unaffected, the list only ever holds this epoch's players)
+					for f := 0; f < cfg.Flaps; f++ {
+						for _, m := range mine {
+							proxy.VerifC11ServerPlayersRemove(lobby, m.h)
+							runtime.Gosched()
+							proxy.VerifC11ServerPlayersAdd(lobby, m.h)
+							rejoins.Add(1)
+						}
 					}
 					for i, m := range mine {
 						proxy.VerifC11ServerPlayersRemove(lobby, m.h)
@@ -294,62 +343,164 @@ func TestC12(t *testing.T) {
 				}
 			}
 		}
+		rangeNames := func(api string, pl proxy.Players) []string {
+			var names []string
+			pl.Range(func(p proxy.Player) bool {
+				if isNil(p) {
+					report(api+"-yields-nil", api+" yielded nil", map[string]any{"run": cfg})
+					return true
+				}
+				names = append(names, p.Username())
+				return true
+			})
+			return names
+		}
+		// one call of a lister; reports whether the goroutine should yield afterwards
+		oneCall := func(kind, li, it int) {
+			switch kind {
+			case lPlayers:
+				pls := px.Players()
+				names := make([]string, 0, len(pls))
+				for _, p := range pls {
+					if isNil(p) {
+						report("Players-lists-nil", "Players() returned a nil entry", map[string]any{"run": cfg})
+						continue
+					}
+					names = append(names, p.Username())
+				}
+				oneTag("Players", names)
+			case lPlayerCount:
+				if n := px.PlayerCount(); n < 0 || n > maxPlayers {
+					report("PlayerCount-exceeds-any-moment", fmt.Sprintf("PlayerCount()=%d but at most %d players are ever registered at once", n, maxPlayers), map[string]any{"run": cfg})
+				}
+			case lServerRange:
+				oneTag("server.Players().Range", rangeNames("server-Range", lobby.Players()))
+			case lServerLen:
+				if n := lobby.Players().Len(); n < 0 || n > maxPlayers {
+					report("server-Len-exceeds-any-moment", fmt.Sprintf("Len()=%d but at most %d players are ever in the list at once", n, maxPlayers), map[string]any{"run": cfg})
+				}
+			case lServers:
+				srvs := px.Servers()
+				names := make([]string, 0, len(srvs))
+				for _, s := range srvs {
+					names = append(names, s.ServerInfo().Name())
+				}
+				oneTag("Servers", names)
+			case lDisconnectAll:
+				if it%8 != 0 { // DisconnectAll is rare in real life too; in between count players
+					_ = px.PlayerCount()
+					runtime.Gosched()
+					return
+				}
+				daCalls.Add(1)
+				daPlayers.Add(int64(px.PlayerCount()))
+				daInFlight.Add(1)
+				px.DisconnectAll(&component.Text{Content: "bye"})
+				daInFlight.Add(-1)
+			case lToSlicePlayer:
+				pls := proxy.PlayersToSlice[proxy.Player](lobby.Players())
+				names := make([]string, 0, len(pls))
+				for _, p := range pls {
+					if isNil(p) {
+						report("PlayersToSlice-lists-nil", "PlayersToSlice returned a nil entry", map[string]any{"run": cfg})
+						continue
+					}
+					names = append(names, p.Username())
+				}
+				if len(names) > maxPlayers {
+					report("PlayersToSlice-exceeds-any-moment", fmt.Sprintf("PlayersToSlice returned %d players but at most %d are ever in the list at once", len(names), maxPlayers), map[string]any{"run": cfg})
+				}
+				oneTag("PlayersToSlice", names)
+			case lToSliceSink:
+				sinks := proxy.PlayersToSlice[proxy.MessageSink](lobby.Players())
+				names := make([]string, 0, len(sinks))
+				for _, sk := range sinks {
+					p, ok := sk.(proxy.Player)
+					if !ok || isNil(p) {
+						report("PlayersToSlice-lists-nil", "PlayersToSlice[MessageSink] returned an entry that is no player", map[string]any{"run": cfg})
+						continue
+					}
+					names = append(names, p.Username())
+				}
+				oneTag("PlayersToSlice", names)
+			case lToSliceBungee:
+				pls := proxy.PlayersToSlice[bungeecord.Player](lobby.Players())
+				names := make([]string, 0, len(pls))
+				for _, p := range pls {
+					if p == nil || reflect.ValueOf(p).IsNil() {
+						report("PlayersToSlice-lists-nil", "PlayersToSlice[bungeecord.Player] returned a nil entry", map[string]any{"run": cfg})
+						continue
+					}
+					names = append(names, p.Username())
+				}
+				oneTag("PlayersToSlice", names)
+			case lPlayerLookup:
+				// lookups of names of any epoch while the maps are being written
+				name := fmt.Sprintf("e%dr%dp%d", (it/7)%cfg.Epochs, (it+li)%cfg.Registrars, it%cfg.PerEpoch)
+				if p := px.PlayerByName(strings.ToUpper(name)); p != nil && (isNil(p) || !strings.EqualFold(p.Username(), name)) {
+					report("PlayerByName-returns-another-player", "PlayerByName returned a player with another name (or a typed nil)", map[string]any{"asked": name, "run": cfg})
+				}
+				id := uuid.OfflinePlayerUUID(name)
+				if p := px.Player(id); p != nil && (isNil(p) || p.ID() != id) {
+					report("Player-returns-another-player", "Player(id) returned a player with another id (or a typed nil)", map[string]any{"asked": name, "run": cfg})
+				}
+			case lServerLookup:
+				name := fmt.Sprintf("e%ds%d", (it/5)%cfg.Epochs, it%cfg.Servers)
+				if it%9 == 0 {
+					name = "LOBBY"
+				}
+				if s := px.Server(name); s != nil {
+					if !strings.EqualFold(s.ServerInfo().Name(), name) {
+						report("Server-returns-another-server", "Server(name) returned a server with another name", map[string]any{"asked": name, "got": s.ServerInfo().Name(), "run": cfg})
+					}
+					if n := s.Players().Len(); n < 0 || n > maxPlayers {
+						report("server-Len-exceeds-any-moment", fmt.Sprintf("Len()=%d but at most %d players are ever in the list at once", n, maxPlayers), map[string]any{"run": cfg})
+					}
+				}
+			case lGlist:
+				// what "/glist all" and "/server" do: all servers, then size and content of each list
+				srvs := px.Servers()
+				names := make([]string, 0, len(srvs))
+				for _, s := range srvs {
+					names = append(names, s.ServerInfo().Name())
+				}
+				oneTag("Servers", names)
+				for _, s := range srvs {
+					pl := s.Players()
+					if pl.Len() == 0 {
+						continue
+					}
+					oneTag("server.Players().Range", rangeNames("server-Range", pl))
+					if n := pl.Len(); n < 0 || n > maxPlayers {
+						report("server-Len-exceeds-any-moment", fmt.Sprintf("Len()=%d but at most %d players are ever in the list at once", n, maxPlayers), map[string]any{"run": cfg})
+					}
+				}
+				if n := px.PlayerCount(); n < 0 || n > maxPlayers {
+					report("PlayerCount-exceeds-any-moment", fmt.Sprintf("PlayerCount()=%d but at most %d players are ever registered at once", n, maxPlayers), map[string]any{"run": cfg})
+				}
+			}
+		}
+		// a panic inside a listing call is a violation of "without crashing": it is recovered in
+		// the lister's goroutine so that the run goes on (a fatal runtime error, which no recover
+		// sees, still ends the process and is classified by the driver)
+		guarded := func(kind, li, it int) {
+			defer func() {
+				if p := recover(); p != nil {
+					listerPanics.Add(1)
+					report("lister-panicked:"+listerName[kind]+":"+panicClass(p),
+						fmt.Sprintf("%s panicked in the calling goroutine while players joined and left: %v", listerName[kind], p),
+						map[string]any{"listing_function": listerName[kind], "panic": fmt.Sprint(p), "stack": lib.Trunc(string(debug.Stack()), 3000), "run": cfg})
+				}
+			}()
+			oneCall(kind, li, it)
+		}
 		for li, kind := range cfg.Listers {
 			list.Add(1)
 			go func(li, kind int) {
 				defer list.Done()
 				for it := 0; !stop.Load(); it++ {
 					calls[kind].Add(1)
-					switch kind {
-					case lPlayers:
-						pls := px.Players()
-						names := make([]string, 0, len(pls))
-						for _, p := range pls {
-							if isNil(p) {
-								report("Players-lists-nil", "Players() returned a nil entry", map[string]any{"run": cfg})
-								continue
-							}
-							names = append(names, p.Username())
-						}
-						oneTag("Players", names)
-					case lPlayerCount:
-						if n := px.PlayerCount(); n < 0 || n > maxPlayers {
-							report("PlayerCount-exceeds-any-moment", fmt.Sprintf("PlayerCount()=%d but at most %d players are ever registered at once", n, maxPlayers), map[string]any{"run": cfg})
-						}
-					case lServerRange:
-						var names []string
-						lobby.Players().Range(func(p proxy.Player) bool {
-							if isNil(p) {
-								report("server-Range-yields-nil", "server.Players().Range yielded nil", map[string]any{"run": cfg})
-								return true
-							}
-							names = append(names, p.Username())
-							return true
-						})
-						oneTag("server.Players().Range", names)
-					case lServerLen:
-						if n := lobby.Players().Len(); n < 0 || n > maxPlayers {
-							report("server-Len-exceeds-any-moment", fmt.Sprintf("Len()=%d but at most %d players are ever in the list at once", n, maxPlayers), map[string]any{"run": cfg})
-						}
-					case lServers:
-						srvs := px.Servers()
-						names := make([]string, 0, len(srvs))
-						for _, s := range srvs {
-							names = append(names, s.ServerInfo().Name())
-						}
-						oneTag("Servers", names)
-					case lDisconnectAll:
-						if it%8 != 0 { // DisconnectAll is rare in real life too; in between count players
-							_ = px.PlayerCount()
-							runtime.Gosched()
-							continue
-						}
-						daCalls.Add(1)
-						daPlayers.Add(int64(px.PlayerCount()))
-						daInFlight.Add(1)
-						px.DisconnectAll(&component.Text{Content: "bye"})
-						daInFlight.Add(-1)
-					}
+					guarded(kind, li, it)
 					if it%4 == 0 {
 						runtime.Gosched()
 					}
@@ -406,6 +557,8 @@ func TestC12(t *testing.T) {
 	r.Set("longest_list_observed", maxLen.Load())
 	r.Count("players_registered", int(registered.Load()))
 	r.Count("servers_registered", int(srvRegistered.Load()))
+	r.Count("server_list_leaves_and_rejoins_within_an_epoch", int(rejoins.Load()))
+	r.Count("lister_panics_recovered", int(listerPanics.Load()))
 	r.Count("DisconnectAll_calls", int(daCalls.Load()))
 	r.Count("DisconnectAll_players_online_at_call", int(daPlayers.Load()))
 }
